@@ -30,7 +30,7 @@ pub struct Case {
 /// entry points whose verdict is also computed by the Lean model (input ≤ 4 KiB)
 pub const MODEL_EPS: &[&str] = &["json", "csv", "mvt", "pmdir", "pmfind", "pmhdr", "vtblk", "vtbidx", "vttidx", "vthdr", "vpl", "pbfstr"];
 pub const ALL_EPS: &[&str] = &[
-	"json", "jsonstr", "tilejson", "csv", "buildcsv", "vpl", "vplfile", "build", "mvt", "pbfstr", "pmdir", "pmfind", "pmhdr", "vtblk", "vtbidx", "vttidx", "vthdr", "vt", "pm", "vtfile", "pmfile", "mb",
+	"json", "jsonstr", "tilejson", "csv", "buildcsv", "vpl", "vpllimit", "vplfile", "build", "mvt", "pbfstr", "pmdir", "pmfind", "pmhdr", "vtblk", "vtbidx", "vttidx", "vthdr", "vt", "pm", "vtfile", "pmfile", "mb",
 	"tar", "dir",
 ];
 
@@ -258,6 +258,12 @@ pub fn eval(ctx: &mut Ctx, c: &Case) -> V {
 			verdict_only(|| rt.block_on(async { factory(&dir).operation_from_vpl(text).await.map(|_| ()) }))
 		}
 		"vpl" => match std::str::from_utf8(b) {
+			Ok(s) => verdict_only(|| versatiles_pipeline::parse_vpl(s)),
+			Err(_) => V::Err,
+		},
+		// texts whose source lists are REALLY nested deeper than the limit of 64 (built that way by the
+		// generator, after lexically tricky prefixes): the only acceptable verdict is `err`
+		"vpllimit" => match std::str::from_utf8(b) {
 			Ok(s) => verdict_only(|| versatiles_pipeline::parse_vpl(s)),
 			Err(_) => V::Err,
 		},
@@ -560,7 +566,14 @@ fn record(out: &mut Out, c: &Case, a: &Answer) {
 		}
 	};
 	let limit = ALLOC_FACTOR * c.input.len() + ALLOC_SLACK;
-	if a.verdict == "ok" || a.verdict == "err" {
+	if c.ep == "vpllimit" && a.verdict == "ok" {
+		out.oracle(
+			false,
+			"C19 limit-bypassed: parse_vpl accepts a text nested deeper than its limit of 64 levels (the recursion is then bounded only by the stack)",
+			json!({"ep": c.ep, "kind": "limit-bypassed"}),
+			json!({"case": short(c), "class": c.class, "input_bytes": c.input.len()}),
+		);
+	} else if a.verdict == "ok" || a.verdict == "err" {
 		if a.max_single > limit {
 			out.oracle(
 				false,
@@ -591,7 +604,7 @@ pub fn run(args: &Args) {
 	out.rule = format!(
 		"every decoding entry point with an error channel ({}) is fed random bytes and, mostly, mutations of VALID encodings produced by the real writers and the independent encoders \
 (bit flips, byte replacement, truncation, deletion, duplication, splices of two valid encodings, length fields set to 2^31/2^32/2^63/2^64-1 and neighbours, multi-byte UTF-8 placed at every \
-alignment relative to error sites, JSON/VPL nesting to 512 quick / 5000 thorough, self-referential PMTiles leaf directories, semantic corruption of SQLite rows, odd tar member names); \
+alignment relative to error sites, JSON/VPL nesting to 512 quick / 5000 thorough, multi-byte characters straddling ABSOLUTE byte offsets 16..4096 (+-1) of malformed and valid documents, VPL nesting 64/65/66 and 5000 after lexically tricky prefixes (quoted values ending in an escaped backslash, escaped quotes, brackets inside quotes; depth > 64 must be err), self-referential PMTiles leaf directories, semantic corruption of SQLite rows, odd tar member names); \
 container cases perform a sequence of single-tile lookups on one opened reader (first coordinate three times, all probes, all probes again: cache-hit paths after errors and successes); each case runs in a child process (RLIMIT_AS 4 GiB, 10 s watchdog) under catch_unwind with a counting global allocator. Oracle: verdict is ok or err (never panic, abort, SIGSEGV, timeout) and the \
 largest single allocation request is <= {}*|input| + 24 MiB. Entry points with a Lean model (json, csv, mvt, pbfstr, pmdir, pmfind, pmhdr, vtblk, vtbidx, vttidx, vthdr, vpl; input <= 4 KiB) are also compared with the model's verdict. \
 non-trivial = derived from a valid encoding or structured generator (everything except class 'random'); distinct by case text",
